@@ -117,6 +117,12 @@ func c19Paths(c *Ctx, prog, mapName, keyField string, x *cexec.Exec) {
 		}
 	}
 	r.Check("C19.direction", prog, mapName+" is keyed by "+strings.TrimPrefix(keyField, "pkt:"), "-", keyOK, "the bucket lookup key is not the expected address of the frame")
+	isZero := func(_ string, k *int64) bool { return k != nil && *k == 0 }
+	depsOf := func(want ...string) func(string, *int64) bool {
+		return func(o string, _ *int64) bool { return hasAll(deps(o), want...) }
+	}
+	isLen := func(o string, _ *int64) bool { d := deps(o); return d["ctx:__sk_buff.len"] || d["__sk_buff.len"] }
+	anyOperand := func(string, *int64) bool { return true }
 	for _, rt := range x.Returns {
 		atoms := rt.St.Atoms
 		verdict, _ := rt.Val.IsConst()
@@ -126,7 +132,10 @@ func c19Paths(c *Ctx, prog, mapName, keyField string, x *cexec.Exec) {
 			if a.L == "nonnull:mapval:"+mapName && a.Op == "nz" && a.Holds {
 				policy = true
 			}
-			if strings.HasSuffix(a.L, "token_bucket.rate_bps") && a.Op == "==" && a.RC != nil && *a.RC == 0 && a.Holds {
+		}
+		nat := normAtoms(atoms)
+		for _, a := range nat {
+			if a.rel("==", func(o string, _ *int64) bool { return strings.HasSuffix(o, "token_bucket.rate_bps") }, isZero) {
 				rate0 = true
 			}
 		}
@@ -151,12 +160,13 @@ func c19Paths(c *Ctx, prog, mapName, keyField string, x *cexec.Exec) {
 		consumed, filled := false, false
 		var plainNow []cexec.Event
 		creditPositive := false
-		for _, a := range atoms {
-			d := deps(a.L)
-			if hasAll(d, "ktime_ns", "last_update", "rate_bps") && !d["tokens"] && a.RC != nil && *a.RC == 0 {
-				if (a.Op == ">" && a.Holds) || (a.Op == "!=" && a.Holds) || (a.Op == "==" && !a.Holds) || (a.Op == "<=" && !a.Holds) {
-					creditPositive = true
-				}
+		isCredit := func(o string, _ *int64) bool {
+			d := deps(o)
+			return hasAll(d, "ktime_ns", "last_update", "rate_bps") && !d["tokens"]
+		}
+		for _, a := range nat {
+			if a.rel(">", isCredit, isZero) || a.rel("!=", isCredit, isZero) {
+				creditPositive = true
 			}
 		}
 		for _, st := range stores {
@@ -165,11 +175,18 @@ func c19Paths(c *Ctx, prog, mapName, keyField string, x *cexec.Exec) {
 			if st.NAtoms <= len(atoms) {
 				before = atoms[:st.NAtoms]
 			}
+			var nbefore []natom
+			for _, a := range nat {
+				if a.NAt < len(before) {
+					nbefore = append(nbefore, a)
+				}
+			}
 			spos := st.Node.Pos()
 			// a constant that replaces a value pinned by an equality test still stands for that value
 			pinned := map[string]bool{}
-			for _, a := range before {
-				if a.RC != nil && (a.Op == "==" && a.Holds || a.Op == "!=" && !a.Holds) {
+			for _, a := range nbefore {
+				// pinned: equal to a constant, or confined below a small constant (`rate < 8 ? 1 : rate / 8`)
+				if a.RC != nil && (a.Op == "==" || ((a.Op == "<" || a.Op == "<=") && *a.RC <= 64)) {
 					for k := range deps(a.L) {
 						pinned[k] = true
 					}
@@ -189,9 +206,8 @@ func c19Paths(c *Ctx, prog, mapName, keyField string, x *cexec.Exec) {
 				case hasAll(d, "__sk_buff.len") || hasAll(d, "ctx:__sk_buff.len"):
 					// consumption
 					guarded := false
-					for _, a := range before {
-						rd := deps(a.R)
-						if (a.Op == ">=" && a.Holds || a.Op == "<" && !a.Holds) && (rd["ctx:__sk_buff.len"] || rd["__sk_buff.len"]) {
+					for _, a := range nbefore {
+						if a.rel(">=", anyOperand, isLen) || a.rel(">", anyOperand, isLen) {
 							guarded = true
 						}
 					}
@@ -200,17 +216,23 @@ func c19Paths(c *Ctx, prog, mapName, keyField string, x *cexec.Exec) {
 				case len(exact) == 1 && exact["burst_bytes"]:
 					guarded := false
 					how := ""
-					for _, a := range before {
-						ld, rd := deps(a.L), deps(a.R)
-						gt := a.Op == ">" && a.Holds || a.Op == "<=" && !a.Holds
-						ge := a.Op == ">=" && a.Holds || a.Op == "<" && !a.Holds
-						if gt && ld["tokens"] && len(rd) == 1 && rd["burst_bytes"] {
+					onlyBurst := func(o string, _ *int64) bool { d := deps(o); return len(d) == 1 && d["burst_bytes"] }
+					isElapsed := func(o string, _ *int64) bool {
+						d := deps(o)
+						return hasAll(d, "ktime_ns", "last_update") && !d["tokens"]
+					}
+					isFill := func(o string, _ *int64) bool {
+						d := deps(o)
+						for k := range pinned {
+							d[k] = true
+						}
+						return hasAll(d, "burst_bytes", "rate_bps")
+					}
+					for _, a := range nbefore {
+						if a.rel(">", depsOf("tokens"), onlyBurst) {
 							guarded, how = true, "tokens > burst"
 						}
-						for k := range pinned {
-							rd[k] = true
-						}
-						if (gt || ge) && hasAll(ld, "ktime_ns", "last_update") && !ld["tokens"] && hasAll(rd, "burst_bytes", "rate_bps") {
+						if a.rel(">", isElapsed, isFill) || a.rel(">=", isElapsed, isFill) {
 							guarded, how = true, "elapsed >= fill time(burst, rate)"
 						}
 					}
@@ -241,15 +263,13 @@ func c19Paths(c *Ctx, prog, mapName, keyField string, x *cexec.Exec) {
 		}
 		// verdicts
 		enough, known := false, false
-		for _, a := range atoms {
-			rd := deps(a.R)
-			if (rd["ctx:__sk_buff.len"] || rd["__sk_buff.len"]) && deps(a.L)["tokens"] || (rd["ctx:__sk_buff.len"] || rd["__sk_buff.len"]) && deps(a.L)["burst_bytes"] {
-				switch {
-				case a.Op == ">=" && a.Holds, a.Op == "<" && !a.Holds:
-					enough, known = true, true
-				case a.Op == ">=" && !a.Holds, a.Op == "<" && a.Holds:
-					enough, known = false, true
-				}
+		tokOrBurst := func(o string, _ *int64) bool { d := deps(o); return d["tokens"] || d["burst_bytes"] }
+		for _, a := range nat {
+			switch {
+			case a.rel(">=", tokOrBurst, isLen):
+				enough, known = true, true
+			case a.rel("<", tokOrBurst, isLen):
+				enough, known = false, true
 			}
 		}
 		switch {
